@@ -189,6 +189,16 @@ class VNoneT(V):
 VNone = VNoneT()
 
 
+class VBottomT(V):
+    """element of an empty list: never observable (every access is out of range);
+    ite absorbs it, everything else rejects it"""
+    def __repr__(self):
+        return "VBottom"
+
+
+VBottom = VBottomT()
+
+
 class VOpt(V):
     """a value that may be None"""
     def __init__(self, isnone, val):
@@ -258,7 +268,7 @@ class VList(V):
 
         def get(i, items=items):
             if not items:
-                raise Unsupported("element of an empty concrete list")
+                return VBottom
             res = items[-1]
             for k in range(len(items) - 2, -1, -1):
                 res = vite(VBool(i == k), items[k], res)
@@ -403,6 +413,10 @@ def vite(c, a, b):
     ct = tobool(c)
     if not is_sym(a) and not is_sym(b) and a is b:
         return a
+    if a is VBottom:
+        return b
+    if b is VBottom:
+        return a
     a, b = lift(a), lift(b)
     if isinstance(a, VInt) and isinstance(b, VInt):
         return VInt(z3.If(ct, a.t, b.t))
@@ -511,6 +525,20 @@ def fresh(ty, name, idx=(), assume=None):
 _FAMILY = {}
 
 
+def coerce(v, ty, base=None, idx=()):
+    """give a (possibly concrete, possibly empty) value the shape of type ty:
+    unobservable elements (VBottom) become arbitrary values of the right type"""
+    base = base or fresh_name("co")
+    if v is VBottom:
+        return _fresh_family(ty, base, tuple(idx), None) if idx else fresh(ty, base)
+    if isinstance(ty, TList):
+        if isinstance(v, (list, tuple)):
+            v = VList.from_py(list(v))
+        if isinstance(v, VList):
+            return VList(v.n, get=lambda i, v=v: coerce(v.get(i), ty.elem, base + "_e", tuple(idx) + (i,)), et=ty.elem)
+    return v
+
+
 def _fresh_family(ty, base, idx, assume):
     """value of type ty as an uninterpreted function (named by base) of idx"""
     if isinstance(ty, (TInt, TRef, TBool, TStr)):
@@ -617,3 +645,23 @@ def forall_ref(f, name="r"):
 def forall2(f, name="q"):
     a, b = z3.Int(fresh_name(name)), z3.Int(fresh_name(name))
     return VBool(z3.ForAll([a, b], tobool(f(VInt(a), VInt(b)))))
+
+
+def _is_uf_app(t):
+    return z3.is_app(t) and t.decl().kind() == z3.Z3_OP_UNINTERPRETED and t.num_args() > 0
+
+
+def qforall(vs, body, pats=()):
+    """ForAll with explicit patterns where every pattern term is an uninterpreted
+    application mentioning all bound variables; otherwise solver-chosen patterns"""
+    good = []
+    for p in pats:
+        terms = p if isinstance(p, (list, tuple)) else [p]
+        if all(_is_uf_app(t) for t in terms):
+            good.append(z3.MultiPattern(*terms) if len(terms) > 1 else terms[0])
+    try:
+        if good:
+            return z3.ForAll(vs, body, patterns=good)
+    except z3.Z3Exception:
+        pass
+    return z3.ForAll(vs, body)
